@@ -70,14 +70,14 @@ type ViolRec struct {
 }
 
 type Sample struct {
-	RunIndex int               `json:"run_index"`
-	SweepK   int               `json:"sweep_k"`
-	TapeLen  int               `json:"tape_len"`
-	Steps    int64             `json:"logical_steps"`
-	Faults   map[string]int    `json:"faults_fired,omitempty"`
-	Probes   map[string]int    `json:"probes,omitempty"`
-	Events   []string          `json:"first_events"`
-	Shape    string            `json:"shape_hash"`
+	RunIndex int            `json:"run_index"`
+	SweepK   int            `json:"sweep_k"`
+	TapeLen  int            `json:"tape_len"`
+	Steps    int64          `json:"logical_steps"`
+	Faults   map[string]int `json:"faults_fired,omitempty"`
+	Probes   map[string]int `json:"probes,omitempty"`
+	Events   []string       `json:"first_events"`
+	Shape    string         `json:"shape_hash"`
 }
 
 type KnownHit struct {
@@ -86,24 +86,24 @@ type KnownHit struct {
 }
 
 type WorkOut struct {
-	Prop       string              `json:"prop"`
-	Runs       int                 `json:"runs"`
-	BaseRuns   int                 `json:"base_runs"`
-	SweepRuns  int                 `json:"sweep_runs"`
-	SweptWorkloads int             `json:"swept_workloads"`
-	NonTrivial int                 `json:"nontrivial"`
-	Shapes     []string            `json:"shapes"`
-	Faults     map[string]int      `json:"faults"`
-	Probes     map[string]int      `json:"probes"`
-	Stats      map[string]int64    `json:"stats"`
-	Steps      int64               `json:"steps"`
-	Samples    []Sample            `json:"samples"`
-	Hashes     map[string]string   `json:"hashes"`
-	Unknown    []ViolRec           `json:"unknown"`
-	Known      map[int]*KnownHit   `json:"known"`
-	MaxIdx     int                 `json:"max_idx"`
-	WallS      float64             `json:"wall_s"`
-	Instr      []rt.InstrInfo      `json:"instr,omitempty"`
+	Prop           string            `json:"prop"`
+	Runs           int               `json:"runs"`
+	BaseRuns       int               `json:"base_runs"`
+	SweepRuns      int               `json:"sweep_runs"`
+	SweptWorkloads int               `json:"swept_workloads"`
+	NonTrivial     int               `json:"nontrivial"`
+	Shapes         []string          `json:"shapes"`
+	Faults         map[string]int    `json:"faults"`
+	Probes         map[string]int    `json:"probes"`
+	Stats          map[string]int64  `json:"stats"`
+	Steps          int64             `json:"steps"`
+	Samples        []Sample          `json:"samples"`
+	Hashes         map[string]string `json:"hashes"`
+	Unknown        []ViolRec         `json:"unknown"`
+	Known          map[int]*KnownHit `json:"known"`
+	MaxIdx         int               `json:"max_idx"`
+	WallS          float64           `json:"wall_s"`
+	Instr          []rt.InstrInfo    `json:"instr,omitempty"`
 }
 
 func workMain(fs *flag.FlagSet, args []string) {
@@ -175,8 +175,8 @@ func workMain(fs *flag.FlagSet, args []string) {
 				h.Count++
 				continue
 			}
-			if unknownPerClass[v.Class] < 3 {
-				unknownPerClass[v.Class]++
+			if unknownPerClass[v.Class+"|"+v.Key] < 2 {
+				unknownPerClass[v.Class+"|"+v.Key]++
 				o.Unknown = append(o.Unknown, rec)
 			}
 		}
@@ -186,7 +186,7 @@ func workMain(fs *flag.FlagSet, args []string) {
 		if *deadline > 0 && time.Now().Unix() >= *deadline {
 			break
 		}
-		if len(o.Unknown) >= 12 {
+		if len(o.Unknown) >= 24 {
 			break
 		}
 		s := runSeed(*seed, p.ID, idx)
